@@ -412,6 +412,57 @@ def coq_meta(P, names):
     pr(P['tabbar']), pr(P['pages']), zl([names(n) for n in P['schema']]))
 
 
+class RG(object):
+  """A regroup descriptor (MetaCascade.regroup) read off one recorded update_summary_section call."""
+  def __init__(self, d):
+    self.d = d
+
+  def __repr__(self):
+    return 'RG(%r)' % (self.d,)
+
+
+def coq_rg(d):
+  z, zl = core.zlit, core.zlist
+  remap = core.coq_list(['(%s, %s)' % (z(a), z(b)) for a, b in d['remap']])
+  return '(mkRG %s %s %s %s %s %s %s %s %s %s %s)' % (
+    z(d['sec']), z(d['target']), z(d['name']), z(d['src']), zl(d['gb']), zl(d['gbkinds']), zl(d['fkinds']),
+    zl(d['added']), zl(d['dels']), remap, zl(d['new']))
+
+
+def regroup_of(g, names):
+  """Descriptor of one update_summary_section call from the projections before and after it (None: the
+  call did something the model does not describe)."""
+  pre, post = g['pre'], g['post']
+  sec = g['sec']
+  ps = [s for s in post['sections'] if s['id'] == sec]
+  if len(ps) != 1:
+    return None
+  target = ps[0]['table']
+  pre_t = set(t['id'] for t in pre['tables'])
+  pre_c = set(c['id'] for c in pre['columns'])
+  newcols = [c for c in post['columns'] if c['id'] not in pre_c]
+  if any(c['parent'] != target or c['kind'] in (K_DISPLAY, K_RULE, K_ROWRULE) for c in newcols):
+    return None
+  d = dict(sec=sec, src=g['src'], gb=list(g['gb']), name=0, gbkinds=[], fkinds=[], added=[])
+  if target in pre_t:
+    d['target'] = target
+    d['added'] = [c['kind'] for c in newcols]
+  else:
+    tr = [t for t in post['tables'] if t['id'] == target]
+    if len(tr) != 1 or len(newcols) < len(g['gb']):
+      return None
+    d['target'] = 0
+    d['name'] = names(tr[0]['name'])
+    d['gbkinds'] = [c['kind'] for c in newcols[:len(g['gb'])]]
+    d['fkinds'] = [c['kind'] for c in newcols[len(g['gb']):]]
+  pf = {f['id']: f for f in pre['fields'] if f['section'] == sec}
+  qf = {f['id']: f for f in post['fields'] if f['section'] == sec}
+  d['dels'] = sorted(i for i in pf if i not in qf)
+  d['remap'] = sorted((i, qf[i]['col']) for i in pf if i in qf and qf[i]['col'] != pf[i]['col'])
+  d['new'] = [qf[i]['col'] for i in sorted(qf) if i not in pf]
+  return RG(d)
+
+
 def coq_op(o):
   """o is a tuple (constructor, args...) with ints, bools and int lists."""
   def lit(a):
@@ -419,7 +470,11 @@ def coq_op(o):
       return core.boollit(a)
     if isinstance(a, int):
       return core.zlit(a)
+    if isinstance(a, RG):
+      return coq_rg(a.d)
     if isinstance(a, (list, tuple)):
+      if a and isinstance(a[0], RG):
+        return core.coq_list([coq_rg(x.d) for x in a])
       return core.zlist(a)
     raise ValueError(a)
   if len(o) == 1:
@@ -455,21 +510,42 @@ class Recorder(object):
         rec.mid = projection(dm._engine)
       return rec.o_ar(dm)
 
+    import summary
+    if not hasattr(summary.SummaryActions, 'update_summary_section'):
+      raise core.TieBroken('instrumentation point summary.SummaryActions.update_summary_section is gone')
+    self.summary = summary
+    self.o_us = summary.SummaryActions.update_summary_section
+    self.regroups = None
+
+    def update_summary_section(sa, view_section, source_table, source_groupby_columns):
+      if rec.snaps is None:
+        return rec.o_us(sa, view_section, source_table, source_groupby_columns)
+      eng = sa.useractions._engine
+      item = dict(action=len(rec.snaps) - 1, sec=int(view_section.id), src=int(source_table.id),
+                  gb=[int(c.id) for c in source_groupby_columns], pre=projection(eng))
+      ret = rec.o_us(sa, view_section, source_table, source_groupby_columns)
+      item['post'] = projection(eng)
+      rec.regroups.append(item)
+      return ret
+
     engine.Engine._apply_one_user_action = _apply_one_user_action
     docmodel.DocModel.apply_auto_removes = apply_auto_removes
+    summary.SummaryActions.update_summary_section = update_summary_section
 
   def uninstall(self):
     self.engine.Engine._apply_one_user_action = self.o_ua
     self.docmodel.DocModel.apply_auto_removes = self.o_ar
+    self.summary.SummaryActions.update_summary_section = self.o_us
 
   def run(self, e, bundle):
     """Applies the bundle; returns (out, snaps, mid, final) -- snaps[i] is the state before action i."""
-    self.snaps, self.mid = [], None
+    self.snaps, self.mid, self.regroups = [], None, []
     try:
       out = G().apply(e, bundle)
       snaps, mid = self.snaps, self.mid
+      self.last_regroups = self.regroups
     finally:
-      self.snaps, self.mid = None, None
+      self.snaps, self.mid, self.regroups = None, None, None
     final = projection(e)
     if len(snaps) != len(bundle) or mid is None:
       raise core.TieBroken('recorder saw %d user actions for a bundle of %d (mid %s)' %
@@ -490,9 +566,37 @@ def next_id(ids):
   return max(ids) + 1 if ids else 1
 
 
-def translate(a, P, Q, names):
+def translate(a, P, Q, names, rgs=()):
   name = a[0]
   T = {t['name']: t for t in P['tables']}
+  if rgs:
+    ds = [regroup_of(g, names) for g in rgs]
+    if any(d is None for d in ds):
+      return UNMODELLED
+    if name == 'UpdateSummaryViewSection' and len(ds) == 1:
+      return ('ORegroup', ds[0])
+    cols = None
+    if name == 'RemoveColumn' and a[1] in T:
+      cs = [c for c in P['columns'] if c['parent'] == T[a[1]]['id'] and c['colId'] == a[2]]
+      cols = [cs[0]['id']] if len(cs) == 1 else None
+    elif name in ('RemoveRecord', 'BulkRemoveRecord') and a[1] == '_grist_Tables_column':
+      cols = [a[2]] if name == 'RemoveRecord' else list(a[2])
+    if cols is None or not all(isinstance(i, int) and i > 0 for i in cols):
+      return UNMODELLED
+    return ('ORemoveColumnsG', cols, ds)
+  if name == 'CreateViewSection' and a[4] is not None:
+    tref, vref, gb = a[1], a[2], a[4]
+    if not (isinstance(tref, int) and isinstance(vref, int) and all(isinstance(i, int) for i in gb)):
+      return UNMODELLED
+    tid = next_id([t['id'] for t in P['tables']])
+    new = [t for t in Q['tables'] if t['id'] == tid and t['summarySource'] == tref]
+    if len(new) != 1:
+      return UNMODELLED
+    newcols = [c for c in Q['columns'] if c['parent'] == tid]
+    if len(newcols) < len(gb):
+      return UNMODELLED
+    return ('OCreateSummary', tref, vref, list(gb), names(new[0]['name']),
+            [c['kind'] for c in newcols[:len(gb)]], [c['kind'] for c in newcols[len(gb):]])
   if name in ('AddTable', 'AddEmptyTable', 'AddRawTable'):
     tid = next_id([t['id'] for t in P['tables']])
     new = [t for t in Q['tables'] if t['id'] == tid]
@@ -638,7 +742,8 @@ def run_histories(ctx, nhist, nb, weights=None, seed_base=0):
           continue
         gen.after_bundle(e)
         hist.append(bundle)
-        out.append(dict(history=list(hist), bundle=bundle, snaps=snaps, mid=mid, final=final))
+        out.append(dict(history=list(hist), bundle=bundle, snaps=snaps, mid=mid, final=final,
+                        regroups=rec.last_regroups))
   finally:
     rec.uninstall()
   return out
@@ -647,7 +752,8 @@ def run_histories(ctx, nhist, nb, weights=None, seed_base=0):
 def case_terms(r, names):
   """Coq terms of one recorded bundle: (pre, ops, mid, final, python verdict of the oracle on final)."""
   snaps = r['snaps'] + [r['mid']]
-  ops = [translate(a, snaps[i], snaps[i + 1], names) for i, a in enumerate(r['bundle'])]
+  ops = [translate(a, snaps[i], snaps[i + 1], names, [g for g in r.get('regroups', ()) if g['action'] == i])
+         for i, a in enumerate(r['bundle'])]
   r['ops'] = ops
   verdict = not [i for i in refs_resolve(r['final']) if i[0] not in EXTRA_KINDS]
   return '(%s, %s, %s, %s, %s)' % (coq_meta(snaps[0], names), core.coq_list([coq_op(o) for o in ops]),
